@@ -41,12 +41,37 @@ T3(c1, k1, c2, k2, c3) ==
                               THEN Mk(c2, [sm \in 1..c2.ar |-> IF sm = k2 THEN T1(c3, L3) ELSE LeafFor(c2, L2[sm])])
                               ELSE LeafFor(c1, L1[sj])])
 TB(c1, c2, c3) == Mk(c1, <<T1(c2, L2), T1(c3, L3)>>)                     \* bushy, c1 binary-shaped
+\* ---------------- member chains (round 4): dotted and computed accesses mixed, as the callee of new / a call ------
+\* The pairs and triples hold at most two accesses in a row.  Here the CHAIN is a dimension: every sequence of .name / [expr]
+\* accesses up to a length (a bit mask: bit = computed), on three heads (a name, this, a call - which needs grouping
+\* parentheses below new), used as the callee of new, of a call, of new followed by a further access, of new new.
+\* descriptor <<5, construct, length, mask, head, 0>>
+ChMem == <<"k", "h", "g", "w">>
+ChIdx == <<"p", "q", "r", "x">>
+ChMaxLen == IF Quick THEN 3 ELSE 4
+ChHead(hi) == CASE hi = 1 -> Id("a") [] hi = 2 -> This [] hi = 3 -> Node("call", "", <<Id("a"), Id("z")>>)
+RECURSIVE ChChain(_, _, _)
+ChChain(hd, ln, mask) ==
+  IF ln = 0 THEN hd
+  ELSE LET prev == ChChain(hd, ln - 1, mask) IN
+       IF (mask \div (2 ^ (ln - 1))) % 2 = 1 THEN Node("idx", "", <<prev, Id(ChIdx[ln])>>) ELSE Node("mem", ChMem[ln], <<prev>>)
+ChTree(ds) ==
+  LET ch == ChChain(ChHead(ds[5]), ds[3], ds[4])
+      nw == Node("new", "", <<ch, Id("b")>>) IN
+  CASE ds[2] = 1 -> nw
+    [] ds[2] = 2 -> Node("call", "", <<ch, Id("b")>>)
+    [] ds[2] = 3 -> Node("mem", "c", <<nw>>)
+    [] ds[2] = 4 -> Node("idx", "", <<nw, Id("c")>>)
+    [] ds[2] = 5 -> Node("new", "", <<nw, Id("c")>>)
+ChDescs == {<<5, cn, ln, mask, hi, 0>> : cn \in 1..5, ln \in 1..ChMaxLen, mask \in 0..15, hi \in 1..3}
+ChDescsOK == {ds \in ChDescs : ds[4] < 2 ^ ds[3]}
 \* descriptor <<shape, o1, k1, o2, k2, o3>>
 TreeOf(ds) ==
   CASE ds[1] = 2 -> T2(Ctors[ds[2]], ds[3], Ctors[ds[4]])
     [] ds[1] = 3 -> T3(Ctors[ds[2]], ds[3], Ctors[ds[4]], ds[5], Ctors[ds[6]])
     [] ds[1] = 4 -> TB(Ctors[ds[2]], Ctors[ds[4]], Ctors[ds[6]])
     [] ds[1] = 1 -> T1(Ctors[ds[2]], L1)
+    [] ds[1] = 5 -> ChTree(ds)
 Slots(ci) == 1..Ctors[ci].ar
 TripleOps == IF Quick THEN Reps ELSE 1..NC
 TreeDescsFor(o1) ==
@@ -396,7 +421,8 @@ CmtCtx == <<
   <<"var", "r", "=", "[", "a", ",", "<L1>", "b", "]", ";", "r", ".", "length", ";">>,
   <<"var", "r", "=", "<s1>", "<L1>", "+", "<s2>", ";", "r", ";">>,
   <<"var", "r", "=", "<L1>", "<r1>", ".", "test", "(", "<s1>", ")", "<L1>", ";", "r", ";">>,
-  <<"var", "r", "=", "a", "<+>", "<L1>", "<+>", "+", "b", ";", "r", ";">>
+  <<"var", "r", "=", "a", "<+>", "<L1>", "<+>", "+", "b", ";", "r", ";">>,
+  <<"var", "r", "=", "(", "a", "<L1>", "+", "b", ")", "*", "(", "<L1>", "b", ")", ";", "r", ";">>          \* round 4: inside grouping parentheses
 >>
 CmtEndCtx == 4
 CaseH(kd, ds, ts, uu, ub, uv) == [kind |-> kd, a |-> ds, toks |-> ts, u |-> uu, u0 |-> ub, u2 |-> uv]
@@ -603,6 +629,66 @@ NumGridLaw ==
   /\ \E ds \in NctxRadixDescs : ds[2] = 16 /\ ds[1] % 16 = 14                   \* a hex literal that ends in the digit e
   /\ \A cs \in NumCasesAll : Denotes(NumLit(cs.u), cs.a[1], cs.a[2]) /\ DenotesN(NumLitN(cs.u), cs.a[1], cs.a[2])
 
+\* ---------------- literal x bracketed position (round 4) ------------------------------------------
+\* The leaves of the enumerated trees are identifiers, and the regex / string texts of the text families stand in one
+\* statement frame.  Here the LEAF of an expression is a literal whose text the specification chooses (a regular
+\* expression built from atoms that are not JavaScript tokens - backslash escapes, quotes, #, brackets inside a class -,
+\* a string over the delimiter alphabet), and the dimension is the POSITION of that operand inside brackets: redundant
+\* parentheses directly round it, twice, round the enclosing call / assignment / index expression, required grouping
+\* parentheses (operand of a tighter operator, arrow function as callee, comma expression), as array element, call
+\* argument, index, branch of a conditional, operand of a unary operator, arrow body, right-hand side - in an
+\* initialiser and at the start of an expression statement.  Marked token sequences ("(?" "?)" optional, "(:" ":)"
+\* required): the base rendering drops the optional pairs, the variant writes them all.
+LposAtoms == RxAtoms \cup {<<35>>, <<91, 40, 93>>, <<91, 41, 93>>, <<92, 100>>}          \* # [(] [)] \d
+LposCoreAtoms == {<<110>>, <<92, 47>>, <<39>>, <<91, 41, 93>>, <<92, 100>>}
+LposRx1 == {<<47>> \o a1 \o <<47>> : a1 \in LposAtoms}
+LposRx1g == {<<47>> \o a1 \o <<47, 103>> : a1 \in LposAtoms}
+LposRx2 == {<<47>> \o a1 \o a2 \o <<47>> : a1 \in (IF Quick THEN LposCoreAtoms ELSE LposAtoms), a2 \in (IF Quick THEN LposCoreAtoms ELSE LposAtoms)}
+LposStrN == IF Quick THEN 1 ELSE 2
+LposStrAll == {tx \in {<<qt>> \o bd \o <<qt>> : qt \in {39, 34}, bd \in SeqsUpTo(AlphaFull, LposStrN) \cup {<<92, ch>> : ch \in AlphaFull}} : StrLit(tx).ok}
+LposStr1 == {tx \in LposStrAll : Len(tx) <= 3 \/ tx[2] = 92}
+\* the operand: leaf kind 1 = regular expression, 2 = string; what follows the literal inside the operand
+LposTail(lk, ti) ==
+  CASE lk = 1 /\ ti = 1 -> <<"<L1>", ".", "test", "(", "<s1>", ")">>
+    [] lk = 1 /\ ti = 2 -> <<"<L1>", ".", "lastIndex">>
+    [] lk = 2 /\ ti = 1 -> <<"<L1>", ".", "length">>
+    [] lk = 2 /\ ti = 2 -> <<"<L1>">>
+LposNCtx == 17
+LposCtx(ci, xs) ==
+  CASE ci = 1  -> <<"(?">> \o xs \o <<"?)">>
+    [] ci = 2  -> <<"(?", "(?">> \o xs \o <<"?)", "?)">>
+    [] ci = 3  -> <<"[", "(?">> \o xs \o <<"?)", "]", "[", "0", "]">>
+    [] ci = 4  -> <<"1", "&&", "(:">> \o xs \o <<"||", "0", ":)">>
+    [] ci = 5  -> <<"f", "(", "(?">> \o xs \o <<"?)", ")">>
+    [] ci = 6  -> <<"(?", "f", "(">> \o xs \o <<")", "?)">>
+    [] ci = 7  -> <<"(?", "[", "7", ",", "8", "]", "[", "+">> \o xs \o <<"]", "?)">>
+    [] ci = 8  -> <<"(?">> \o xs \o <<"?)", "?", "1", ":", "2">>
+    [] ci = 9  -> <<"1", "?", "(?">> \o xs \o <<"?)", ":", "2">>
+    [] ci = 10 -> <<"0", "?", "1", ":", "(?">> \o xs \o <<"?)">>
+    [] ci = 11 -> <<"!", "(?">> \o xs \o <<"?)">>
+    [] ci = 12 -> <<"(:", "v", "=>", "(?">> \o xs \o <<"?)", ":)", "(", "1", ")">>
+    [] ci = 13 -> <<"b", "=", "(?">> \o xs \o <<"?)">>
+    [] ci = 14 -> <<"(?", "b", "=">> \o xs \o <<"?)">>
+    [] ci = 15 -> <<"(?">> \o xs \o <<"?)", "+", "1">>
+    [] ci = 16 -> <<"(:", "1", ",">> \o xs \o <<":)">>
+    [] ci = 17 -> <<"(?", "(:", "1", "+">> \o xs \o <<":)", "*", "2", "?)">>
+LposFrame(fi, ex) == IF fi = 1 THEN <<"var", "r", "=">> \o ex \o <<";", "r", ";">> ELSE ex \o <<";">>
+LposSubst(tk) == CASE tk = "<L1>" -> "p" [] tk = "<s1>" -> "q" [] tk \in {"test", "length", "lastIndex"} -> "k" [] OTHER -> tk
+LposToks(ds) == LposFrame(ds[2], LposCtx(ds[1], LposTail(ds[3], ds[4])))
+\* descriptor <<position, frame, leaf kind, tail>> x text.  Quick: every position x every single-atom text and the pairs over
+\* the core atoms in the initialiser frame; the statement frame and the second tail with the single-atom texts.  Thorough: the product.
+LposTextsFor(lk, fi, ti) ==
+  IF lk = 1 THEN LposRx1 \cup (IF ~Quick \/ (fi = 1 /\ ti = 1) THEN LposRx1g \cup LposRx2 ELSE {})
+  ELSE IF ~Quick \/ (fi = 1 /\ ti = 1) THEN LposStrAll ELSE LposStr1
+LposCases(ci) == UNION {{CaseH("lpos", <<ci, fi, lk, ti>>, LposToks(<<ci, fi, lk, ti>>), tx, <<>>, <<>>) : tx \in LposTextsFor(lk, fi, ti)}
+                          : fi \in {1, 2}, lk \in {1, 2}, ti \in {1, 2}}
+LposGridLaw ==
+  /\ \A at \in LposAtoms, fi \in {1, 2}, ti \in {1, 2} : (<<47>> \o at \o <<47>>) \in LposTextsFor(1, fi, ti)
+  /\ \A ch \in AlphaFull \ {10, 13}, fi \in {1, 2}, ti \in {1, 2} : \E tx \in LposTextsFor(2, fi, ti) : \E ui \in 2..(Len(tx) - 1) : tx[ui] = ch
+  /\ \E tx \in LposTextsFor(1, 1, 1) : Len(tx) >= 6 /\ tx[Len(tx)] = 47          \* two atoms
+  /\ \E tx \in LposTextsFor(1, 1, 1) : tx[Len(tx)] = 103                         \* a flag
+
+
 \* ---------------- Enum -------------------------------------------------------------------------
 VARIABLES ph, cur, rec_i
 vars == <<ph, cur, rec_i>>
@@ -622,6 +708,7 @@ Groups == {<<"tree", o1>> : o1 \in O1Lo..O1Hi}
                                   \cup {<<"cmt", ci>> : ci \in 1..Len(CmtCtx)} \cup {<<"strb", 39>>, <<"strb", 34>>, <<"ut", 0>>, <<"rx", 0>>}
                                   \cup {<<"nform", 0>>} \cup {<<"nctx", ci>> : ci \in 1..Len(NumCtx)}
                                   \cup {<<"stm", nn>> : nn \in StmSizes}
+                                  \cup {<<"lpos", ci>> : ci \in 1..LposNCtx} \cup {<<"chain", 0>>}
                 ELSE {})
 EnumNext ==
   \/ /\ ph = "start"
@@ -659,6 +746,10 @@ EnumNext ==
            /\ \E cs \in NctxCases(cur.a[1]) : cur' = cs
         \/ /\ cur.kind = "stm"
            /\ \E ds \in StmDescsFor(cur.a[1]) : cur' = CaseT("stm", <<ds[2], ds[4], ds[3]>> \o ds[1], StmToks(ds))
+        \/ /\ cur.kind = "lpos"
+           /\ \E cs \in LposCases(cur.a[1]) : cur' = cs
+        \/ /\ cur.kind = "chain"
+           /\ \E ds \in ChDescsOK : WellFormed(TreeOf(ds)) /\ cur' = CaseT("tree", ds, PrintMarked(TreeOf(ds)))
 EnumEmit == ph # "case" \/ PrintT(ToJson(cur))
 
 \* ---------------- Laws (INVARIANT in the Enum configuration) -----------------------------------
@@ -715,8 +806,18 @@ Law(cs) ==
             \/ Len(fsm.out) = 1 /\ fsm.out[1].k \in {"str", "regex"}
     [] cs.kind = "rxdel" -> Lex(ClassesOfUnitsX(cs.u \o <<10>>), TRUE, {}).err.k = "unterminated-regex"
     [] cs.kind = "rxnl" -> Lex(ClassesOfUnitsX(cs.u), TRUE, {}).err.k = "unterminated-regex"
+    [] cs.kind = "lpos" ->                                                \* the optional pairs are redundant for the grammar (the
+         LET mk == LposCtx(cs.a[1], LposTail(cs.a[3], cs.a[4]))            \* literal read as an operand); the text is one literal token
+             sub == [ti \in 1..Len(mk) |-> LposSubst(mk[ti])]
+             bs == ParseExpr(Unmark(DropOptional(sub)))
+             vr == ParseExpr(AllParens(sub))
+             fsm == Lex(ClassesOfUnitsX(cs.u), TRUE, {}) IN
+         /\ bs.ok /\ vr.ok /\ bs.t = vr.t /\ cs.toks = LposFrame(cs.a[2], mk)
+         /\ \E ti \in 1..Len(mk) : mk[ti] \in {"(?", "(:"}
+         /\ TextSupportedX(cs.u) /\ fsm.err.k = "none" /\ Len(fsm.out) = 1
+         /\ fsm.out[1].k = (IF cs.a[3] = 1 THEN "regex" ELSE "str") /\ (cs.a[3] = 2 => StrLit(cs.u).ok)
     [] OTHER -> FALSE
-LawsHold == (ph = "start" => NumGridLaw /\ StmGridLaw) /\ (ph # "case" \/ Law(cur))
+LawsHold == (ph = "start" => NumGridLaw /\ StmGridLaw /\ LposGridLaw) /\ (ph # "case" \/ Law(cur))
 
 \* ---------------- Judge ------------------------------------------------------------------------
 \* records: [id, kind, a, toks, u, lay, act, act0, ev0, ev1, ast0, ast1]   (act0 = parse of the base rendering)
@@ -873,6 +974,27 @@ JudgeNumCtx(r) ==
        ELSE IF r.ev1.o = "value" /\ r.ev1.v.k = "num" /\ r.ev1.v.w = WordsOfDyadic(r.a[1], r.a[2]) /\ SameOutcome(r.ev0, r.ev1) THEN Pass
        ELSE IF r.ev1.o = "syntax" THEN Mis("", "literal spelling rejected in this position")
        ELSE Mis("", "literal spelling denotes another value in this position")
+\* a literal in a bracketed position: r.u0 / r.u = the rendered program without / with the optional parentheses.  For the
+\* lexical machine the variant must be the base plus as many parenthesis pairs as there are optional markers (else the
+\* case is not what it claims: machinery); a valid program must be accepted, and both must be the same program.
+LposNoParens(ks) == SelectSeq(ks, LAMBDA x : x \notin {"(", ")"})
+LposCount(ks, tk) == Cardinality({ti \in 1..Len(ks) : ks[ti] = tk})
+JudgeLpos(r) ==
+  IF ~TextSupportedX(r.u) \/ ~TextSupportedX(r.u0) THEN Unsup("text outside the class alphabet")
+  ELSE LET lv == Lex(ClassesOfUnitsX(r.u), TRUE, {})
+           lb == Lex(ClassesOfUnitsX(r.u0), TRUE, {})
+           kv == KindsOf(lv.out)
+           kb == KindsOf(lb.out) IN
+       IF lv.err.k # "none" \/ lb.err.k # "none" \/ ~Balanced(kv) \/ ~Balanced(kb) \/ LposNoParens(kv) # LposNoParens(kb)
+          \/ LposCount(kv, "(") # LposCount(kb, "(") + LposCount(r.toks, "(?")
+       THEN Unsup("variant is not the base program plus redundant parentheses")
+       ELSE IF r.act0.o = "syntax" THEN Mis("", "valid program rejected")
+       ELSE IF r.act0.o # "tree" THEN Mis("", "parser raised a host exception or did not answer")
+       ELSE IF r.act.o = "syntax" THEN Mis("", "redundant parentheses: valid program rejected")
+       ELSE IF r.act.o # "tree" THEN Mis("", "redundant parentheses: parser raised a host exception or did not answer")
+       ELSE IF r.ev0.o \notin {"value", "jserror"} THEN Mis("", "valid program not evaluated")
+       ELSE IF r.ast0 = r.ast1 /\ r.ast0 # "" /\ SameOutcome(r.ev0, r.ev1) THEN Pass
+       ELSE Mis("", "redundant parentheses change the program")
 JudgeStr(r) ==
   LET lit == StrLit(r.u) IN
   IF ~lit.ok THEN Unsup("not a string literal")
@@ -884,6 +1006,7 @@ Verdict(r) ==
     [] r.kind = "variant" -> JudgeVariant(r)
     [] r.kind \in {"prog", "pdelbr", "pdelterm", "tprog", "cdel", "sbad", "utdel", "rxdel", "rxnl"} -> JudgeText(r)
     [] r.kind = "cmt" -> JudgeCmt(r)
+    [] r.kind = "lpos" -> JudgeLpos(r)
     [] r.kind = "strb" -> JudgeStr(r)
     [] r.kind = "pvariant" -> JudgeProgVariant(r)
     [] r.kind = "stm" -> JudgeStm(r)
